@@ -9,7 +9,7 @@ from .. import terms as T
 ID = "C19"
 LEVEL = "exploration"
 RULE = ("row-level audit, by the reference decoder, of every stream written by the serializer workloads of both "
-        "integrations plus dedicated runs with tables larger than the vocabulary: (a) no entry row for a string resident "
+        "integrations (one case in five: 2-5 sinks through ONE stream) plus dedicated runs with tables larger than the vocabulary: (a) no entry row for a string resident "
         "in that table (with big tables: every string sent exactly once), (b) no statement slot carrying a term equal to "
         "the previous statement's term in that slot, (c) no explicit entry/name/prefix id where the zero form is "
         "equivalent, (d) GRAPHS streams written from a statement sequence never close and reopen the same graph for "
@@ -99,11 +99,48 @@ def opportunities(stmts: list, res: refdec.Result) -> dict:
             "zero-form": (c["name-zero-id"] + c["prefix-zero-id"] + c["name-entry-zero-id"]) > 0}
 
 
+def audit_groups(cfg: dict, groups: list, nss: list):
+    """Several sinks through ONE stream: the compression state must carry over from sink to sink."""
+    try:
+        data = pj.serialize_groups(cfg, groups, nss)
+        res = refdec.decode(wire.dec_stream(data, True), strict_graphs=True)
+    except Exception:  # noqa: BLE001
+        return [], None
+    if res.violation is not None:
+        return [], None
+    kinds = ["redundant-entry", "missed-zero-entry-id", "missed-zero-name-id", "missed-zero-prefix-id"]
+    if workloads.input_is_ordered(cfg):
+        kinds.append("missed-elision")        # rdflib stores iterate in their own order: elisions are judged on generic input
+    out = []
+    for kind in kinds:
+        if res.audit[kind]:
+            samples = [s for s in res.audit_samples if s["kind"] == kind][:3]
+            out.append({"clause": kind, "count": res.audit[kind], "audit_samples": T.to_json(samples),
+                        "summary": f"{len(groups)}-sink stream: {kind} x{res.audit[kind]}: {samples[:1]}"})
+    return out, res
+
+
 def run_shard(ctx):
     i = 0
     while not ctx.out_of_time():
         rng = ctx.rng(i)
         i += 1
+        if i % 5 == 0:
+            cfg, groups, nss = workloads.multi_sink_case(rng, with_ns=rng.random() < .4)
+            if rng.random() < .6:       # make consecutive sinks share terms across the boundary
+                for a, b in zip(groups, groups[1:]):
+                    if a and b:
+                        b[0] = tuple(a[-1][:2]) + tuple(b[0][2:])
+            ws, res = audit_groups(cfg, groups, nss)
+            if res is not None:
+                ctx.observe("streams-audited")
+                ctx.observe("multi-sink-streams-audited")
+            for w in ws:
+                w.update({"cfg": cfg, "groups": T.to_json(groups), "nss": nss, "stmts": T.to_json([s for g in groups for s in g])})
+                ctx.violation(w)
+            ctx.case(("multi", sorted(cfg.items()), groups, nss), res is not None,
+                     sample={"kind": "multi-sink", "cfg": cfg, "group_sizes": [len(g) for g in groups]})
+            continue
         cfg, stmts, ns = workloads.serializer_case(rng, max_len=50)
         if rng.random() < 0.3:      # dedicated: tables larger than the vocabulary => each string exactly once
             n, p, d = cfg["preset"]
@@ -137,6 +174,9 @@ def run_shard(ctx):
 def replay(w: dict):
     cfg = w["cfg"]
     cfg["preset"] = tuple(cfg["preset"])
+    if "groups" in w:
+        ws, _ = audit_groups(cfg, [list(g) for g in T.from_json(w["groups"])], [[tuple(b) for b in n] for n in w["nss"]])
+        return next((x for x in ws if x["clause"] == w["clause"]), None)
     stmts = list(T.from_json(w["stmts"]))
     ns = [tuple(x) for x in w.get("ns", [])]
     for x in audit_case(cfg, stmts, ns)[0]:
